@@ -31,6 +31,11 @@ for pid in sorted(registry.PROPERTIES):
     for r in ("R-TAINT-INDEX", "R-TAINT-ALLOC"):
         if r in per:
             per[r] = {c: 1 for c, n in per[r].items() if n >= 1}
+    # every other rule: at least half of the sites confirmed today (refactors merge and split sites; a rule that loses its anchor reports
+    # "anchor not found" by itself, the floor only guards against a rule silently matching almost nothing)
+    for r in per:
+        if r not in ("R-RESULT-USED", "R-XFER-SITE", "R-TAINT-ARITH", "R-TAINT-INDEX", "R-TAINT-ALLOC"):
+            per[r] = {c: max(1, n // 2) for c, n in per[r].items()}
     out[pid] = per
     bad = [o for o in obs if not o.ok]
     print(pid, {r: c for r, c in per.items()}, "violations:", len(set(o.key() for o in bad)), notes[:1])
